@@ -85,8 +85,14 @@ def build_object(sc, rng, natom):
     if sc["charge"]:
         q = sc["charge"][0] / 4
         if how == "derived":
-            kw["atcorenums"] = atnums.astype(float)
-            kw["nelec"] = float(atnums.sum()) - q
+            core = atnums.astype(float)
+            if rng.random() < 0.5:
+                # effective core potentials and ghost centres: the charge follows from the core charges, not from the atomic numbers
+                for i in range(natom):
+                    r = rng.random()
+                    core[i] = 0.0 if r < 0.2 else (core[i] - 10.0 if (r < 0.6 and core[i] > 12) else core[i])
+            kw["atcorenums"] = core
+            kw["nelec"] = float(core.sum()) - q
         else:
             kw["charge"] = q
     if sc["spinpol"]:
